@@ -7,8 +7,8 @@
    (validated on the real libraries in every run of the check, on that run's byte strings).
    np.packbits/unpackbits, the byte layout of integers, the antimask selection, the refill
    with the default and _find_corners are modelled concretely and proved. *)
-From Coq Require Import List ZArith Bool.
-From PM Require Import Base Mask C11Model C11Lemmas.
+From Coq Require Import List ZArith Bool Reals.
+From PM Require Import Base Mask C11Model C11Lemmas C11Real.
 Import ListNotations.
 
 (* U: packed bits come back (np.unpackbits(np.packbits(l))[:len(l)] == l), every length *)
@@ -74,6 +74,39 @@ Theorem C11_pure : forall cd o,
   snd (getstate_eff cd o) = getstate cd (py_q o).
 Proof. exact getstate_pure. Qed.
 
+(* ---- set_pickle_digits: the 'scaled' codec over the real numbers (C11Real.v) ----
+   scale_factor = 256^n / span * (1 - eps), code k = trunc(scale_factor * (v - min)),
+   decoded = k / scale_factor + min + 0.5 / scale_factor, as _encode_one_float_array and
+   _decode_scaled_uints compute them.  The check compares, for every array it feeds to these two
+   functions, the stored 1/scale_factor, offset and byte count with these formulas and the stored codes with
+   floor(scale_factor * (v - min)) in exact rational arithmetic; float rounding is outside the
+   theorem (the check allows 4 ulp of the largest magnitude).  R axioms of the standard library. *)
+(* U: every value between min and max gets a code that fits n bytes (so keeping the low n bytes
+   of the uint32/uint64 loses nothing) *)
+Theorem C11_scaled_code_fits : forall n mn span eps v, (0 < span)%R -> (0 < eps < 1)%R ->
+  (mn <= v <= mn + span)%R -> (0 <= enc_scaled n mn span eps v < B n)%Z.
+Proof. exact scaled_code_range. Qed.
+
+(* U: decoding lands within half a code step of the value *)
+Theorem C11_scaled_error : forall n mn span eps v, (0 < span)%R -> (0 < eps < 1)%R ->
+  (Rabs (dec_scaled n mn span eps (enc_scaled n mn span eps v) - v) <= /2 * / sfac n span eps)%R.
+Proof. exact scaled_error. Qed.
+
+(* U: with at most 6 bytes chosen so that 256^n >= span / precision + 1 and eps <= 256^-6 (the float
+   epsilon is 2^-52 < 2^-48), the code fits, its n little-endian bytes give it back, and the
+   restored value is within half the precision asked for *)
+Theorem C11_scaled_roundtrip : forall n mn span eps prec v, n <= 6 -> (0 < span)%R -> (0 < prec)%R ->
+  (0 < eps <= / W 6)%R -> (span / prec + 1 <= W n)%R -> (mn <= v <= mn + span)%R ->
+  let k := enc_scaled n mn span eps v in
+  (0 <= k < B n)%Z /\ le_val (le_bytes n k) = k /\
+  (Rabs (dec_scaled n mn span eps k - v) <= /2 * prec)%R.
+Proof. exact scaled_roundtrip. Qed.
+
+(* non-vacuity: two bytes, range [0, 1], three digits *)
+Example C11_ex_scaled : (2 <= 6) /\ (0 < 1)%R /\ (0 < /1000)%R /\ (0 < / W 6 <= / W 6)%R /\
+  (1 / (/1000) + 1 <= W 2)%R /\ (0 <= /2 <= 0 + 1)%R.
+Proof. exact ex_scaled_premises. Qed.
+
 (* ---- non-vacuity ---- *)
 (* the hypotheses on the codec are satisfiable (the executable model uses this instance) *)
 Example C11_ex_codec :
@@ -122,3 +155,6 @@ Print Assumptions C11_int_width.
 Print Assumptions C11_int32_as_int64_refuted.
 Print Assumptions C11_roundtrip_default.
 Print Assumptions C11_pure.
+Print Assumptions C11_scaled_code_fits.
+Print Assumptions C11_scaled_error.
+Print Assumptions C11_scaled_roundtrip.
